@@ -707,9 +707,14 @@ class HttpProxyPlugin(HttpProtocolHandlerPlugin):
         subject = ''
         for key in keys:
             if upstream_subject.get(keys[key], None):
+                # '/' separates the fields of an openssl -subj argument
+                # and '\\' escapes, a value such as 'ACME A/S' must not
+                # be taken for the start of another field.
                 subject += '/{0}={1}'.format(
                     key,
-                    upstream_subject.get(keys[key]),
+                    upstream_subject.get(keys[key]).replace(
+                        '\\', '\\\\',
+                    ).replace('/', '\\/'),
                 )
         alt_subj_names = [text_(self.request.host)]
         validity_in_days = 365 * 2
